@@ -390,9 +390,9 @@ def c04_6(ctx):
     test = inner[0].test
     ctx.count(1, fn.where(inner[0]))
     compact = [r for r in inner[0].body if isinstance(r, ast.Return) and '%Y%m%d' in U(r.value)]
-    lossless = [r for r in inner[0].orelse if isinstance(r, ast.Return) and 'isoformat' in U(r.value)]
+    lossless = [r for r in else_of(inner[0]) if isinstance(r, ast.Return) and 'isoformat' in U(r.value)]
     if not compact or not lossless:
-        compact2 = [r for r in inner[0].orelse if isinstance(r, ast.Return) and '%Y%m%d' in U(r.value)]
+        compact2 = [r for r in else_of(inner[0]) if isinstance(r, ast.Return) and '%Y%m%d' in U(r.value)]
         lossless2 = [r for r in inner[0].body if isinstance(r, ast.Return) and 'isoformat' in U(r.value)]
         if compact2 and lossless2:
             test = negate(test)
